@@ -588,7 +588,13 @@ class _SubsetView:
 MODEL_EXPANDED = set(L.EXPANDED_OPTS) | set(L.OPT_CLASS) | {'user', 'serverurl', 'events', 'buffer_size', 'result_handler', 'socket', 'socket_backlog', 'socket_mode'}
 
 
+# the [supervisord] options Model/Config.lean readConfig reads (any other one, e.g. user=, is read and expanded by options.py only)
+MODEL_SUPERVISORD = {'minfds', 'minprocs', 'umask', 'logfile_maxbytes', 'logfile_backups', 'identifier', 'nodaemon', 'silent', 'nocleanup', 'strip_ansi', 'environment'}
+
+
 def in_subset(parser):
+    if parser.has_section('supervisord') and any(k not in MODEL_SUPERVISORD for k, _ in parser.items('supervisord')):
+        return False
     return C14.in_model_subset(_SubsetView(parser))
 
 
